@@ -713,6 +713,11 @@ func (vfs *MemFS) RemoveAll(path string) error {
 		return &fs.PathError{Op: op, Path: path, Err: err}
 	}
 
+	if c, ok := child.(*dirNode); ok && c == parent {
+		// The root directory can't be removed (and is its own parent).
+		return &fs.PathError{Op: op, Path: path, Err: vfs.err.InvalidArgument}
+	}
+
 	parent.mu.Lock()
 	defer parent.mu.Unlock()
 
